@@ -246,6 +246,26 @@ pub fn run_case(tape: &mut Tape, _tier: Tier, _p: &CaseParams) -> CaseOutcome {
   // pre-draw schedules for every operation
   let n_ops = parts.len() + 4;
   let scheds: Vec<SchedOpts> = (0..n_ops).map(|_| SchedOpts::draw(tape)).collect();
+  // a first build that only has configured imports (no roots) followed by the
+  // builds of the roots: the graph is not empty although it has no roots, so
+  // a cache-busting restart (stale registry metadata) must not throw it away
+  if world
+    .registry
+    .packages
+    .values()
+    .any(|p| p.stale_cached_meta.is_some())
+    && tape.draw(Stream::World, 3) == 2
+  {
+    if world.imports.is_empty() {
+      let u = format!("{}cfg_types.d.ts", H_FILE);
+      world.add_desc(ModuleDesc::new(u.clone(), Lang::Dts));
+      world
+        .imports
+        .push((format!("{}deno.json", H_FILE), vec![u]));
+    }
+    parts.insert(0, vec![]);
+    out.count("probe.first_build_has_configured_imports_only", 1);
+  }
   let imports = world.imports.clone();
   // edited world
   let mut world2 = world.clone();
